@@ -243,6 +243,16 @@ def run_class(item):
                     instr2.lift(il2, addr)
                     e3 = parts_equal_term(il_parts(il1.ils), il_parts(il2.ils))
                     chk.append(("C02:re-decode-il", z3.Not(e3) if z3.is_expr(e3) else z3.BoolVal(not e3), ""))
+                # stream view: decoding another instruction of the same opcode (other operand bytes) in between must not
+                # change what the first instruction encodes to (operand templates / caches shared between decodes)
+                if prop == "C02" and obytes:
+                    try:
+                        decode(SymBytes(head + [b ^ 0x5A for b in obytes]), addr, OPCODES)
+                    except AssertionError:
+                        pass
+                    enc3 = encode(instr, addr)
+                    eq3 = SymBytes(list(enc3)) == SymBytes(body[:ln])
+                    chk.append(("C02:encode-differs-after-another-decode", z3.Not(eq3.t if isinstance(eq3, core.SymBool) else z3.BoolVal(bool(eq3))), ""))
             except core.PysymAbort:
                 raise
             except Exception as e:  # noqa: BLE001
@@ -391,8 +401,10 @@ def classes(prop, tier):
                 if tier == "quick":
                     tl = QUICK_TAILS[:2] if not ps else []
                 else:
-                    tl = QUICK_TAILS if len(ps) <= 1 else QUICK_TAILS[:2]
-                    if not ps and op in (0x00, 0x08, 0xC8):
+                    # sized by wall time (16 cores, about half an hour): all tails without a prefix, two behind a single PRE byte,
+                    # every possible first tail byte behind NOP
+                    tl = QUICK_TAILS if not ps else (QUICK_TAILS[:2] if len(ps) == 1 else [])
+                    if not ps and op == 0x00:
                         tl = list(range(256))
                 rep = (b2s[len(b2s) // 2],) if b2 is not None else None
                 for t in tl:
